@@ -3,6 +3,8 @@ package main
 import (
 	"fmt"
 	"os"
+	"sort"
+	"strings"
 )
 
 func main() {
@@ -33,6 +35,34 @@ func main() {
 			for _, af := range fn.AnonFuncs {
 				af.WriteTo(os.Stdout)
 			}
+		}
+	case "gaps":
+		// functions of the module that write scheduler state directly and carry no contract (coverage planning aid)
+		w, err := loadWorld("./pkg/...")
+		if err != nil {
+			fmt.Fprintln(os.Stderr, err)
+			os.Exit(2)
+		}
+		cs, err := loadContracts(w.RepoDir, "/verif/contracts/assumed")
+		if err != nil {
+			fmt.Fprintln(os.Stderr, err)
+			os.Exit(2)
+		}
+		ms := modsetAnalysis(w, cs)
+		var lines []string
+		for fn, e := range ms.direct {
+			k := funcKey(fn)
+			if cs.Funcs[k] != nil || len(e.comps) == 0 {
+				continue
+			}
+			if len(os.Args) > 2 && !strings.HasPrefix(k, os.Args[2]) {
+				continue
+			}
+			lines = append(lines, k+": "+strings.Join(sortedKeys(e.comps), " "))
+		}
+		sort.Strings(lines)
+		for _, l := range lines {
+			fmt.Println(l)
 		}
 	case "modset":
 		w, err := loadWorld("./pkg/...")
